@@ -228,9 +228,23 @@ def runModel (s : Scn) : String × World :=
 def finalStr (s : Scn) (w : World) : String :=
   ";".intercalate (sortStrings ((keysOf s).filterMap fun k => (w.store.get k).map (objStr k)))
 
+/-- events with, for every apply, the recorded revision and the number of controllers (native /
+annotation list) of the object as stored by that apply. -/
+def eventsStr (w : World) : String :=
+  let rec go (evs : List Event) (ap : List (Key × Obj)) : List String :=
+    match evs with
+    | [] => []
+    | (.apply k c ch) :: rest =>
+      match ap with
+      | (_, o) :: ap' =>
+        s!"{eventStr (.apply k c ch)} r={revStr o.rev} c={(o.owners.filter (·.ctrl)).length}/{(o.annOwners.filter (·.ctrl)).length}" :: go rest ap'
+      | [] => eventStr (.apply k c ch) :: go rest []
+    | e :: rest => eventStr e :: go rest ap
+  ";".intercalate (go w.events w.applied)
+
 def model (s : Scn) : String :=
   let (o, w) := runModel s
-  s!"{o} # {";".intercalate (w.events.map eventStr)} # {finalStr s w}"
+  s!"{o} # {eventsStr w} # {finalStr s w}"
 
 /-! ### helpers for monitors: parse an implementation output line -/
 
